@@ -3,6 +3,7 @@
 mod archive;
 mod chunking;
 mod clone;
+mod http;
 mod pb;
 mod memfile;
 mod util;
@@ -23,6 +24,7 @@ fn main() {
             "stream" | "stream2" | "resync" | "hash" | "f6" => chunking::replay(&line),
             "planner" | "clone" => clone::replay(&line),
             "protodec" | "tryinit" | "compress" => archive::replay(&line),
+            "http" => http::replay(&line),
             k => Err(format!("unknown replay kind {}", k)),
         };
         match r {
@@ -59,6 +61,8 @@ fn main() {
         "protodec" => archive::suite_protodec(&out, seed, thorough, &mut st),
         "tryinit" => archive::suite_tryinit(&out, seed, thorough, &mut st),
         "compress" => archive::suite_compress(&out, seed, thorough, &mut st),
+        "http" => http::suite_http(&out, seed, thorough, &mut st),
+        "ioread" => http::suite_ioread(&out, seed, thorough, &mut st),
         "clone" => clone::suite_clone(&out, seed, thorough, &mut st),
         _ => {
             eprintln!("unknown suite {}", suite);
